@@ -123,6 +123,33 @@ DropCaches(ix, f) ==
 RECURSIVE DropAll(_, _)
 DropAll(ix, S) == IF S = {} THEN ix ELSE LET f == CHOOSE x \in S : TRUE IN DropAll(DropCaches(ix, f), S \ {f})
 
+(***************************************************************************)
+(* scan_workspace (scanner.rs:78-240): phase 1 hands every conftest / test *)
+(* file found on disk to analyze_file_fresh (no definitions cleanup);      *)
+(* scan_imported_fixture_modules (scanner.rs:241-430) then follows the     *)
+(* imports and pytest_plugins of the analysed files to a fixpoint and      *)
+(* analyses every imported module that is NOT in file_cache yet.           *)
+(***************************************************************************)
+RECURSIVE SetToSeqI(_)
+SetToSeqI(S) == IF S = {} THEN <<>> ELSE LET x == CHOOSE y \in S : TRUE IN <<x>> \o SetToSeqI(S \ {x})
+RECURSIVE AnalyzeDiskSeq(_, _, _)
+AnalyzeDiskSeq(ix, D, o) ==
+    IF o = <<>> THEN ix ELSE AnalyzeDiskSeq(AnalyzeFnD(ix, D, Head(o), ix.disk[Head(o)], FALSE), D, Tail(o))
+ModTargets(m) ==
+    IF m = NoMod \/ ~m.valid THEN {}
+    ELSE { m.items[i].mod : i \in { j \in 1..Len(m.items) : m.items[j].k \in {"star", "imp", "impas", "plugins"} } } \cap Files
+RECURSIVE ScanImports(_, _, _, _)
+ScanImports(ix, D, todo, done) ==
+    IF todo = {} THEN ix
+    ELSE LET f == CHOOSE x \in todo : TRUE
+             c == IF ix.cached[f] # NoMod THEN ix.cached[f] ELSE ix.disk[f]
+             new == { g \in ModTargets(c) : g \notin done /\ g # f /\ ix.cached[g] = NoMod /\ ix.disk[g] # NoMod }
+         IN  ScanImports(AnalyzeDiskSeq(ix, D, SetToSeqI(new)), D, (todo \ {f}) \cup new, done \cup {f})
+ScanFn(ix, D) ==
+    LET p1 == { f \in Files : ix.disk[f] # NoMod /\ RoleOf[f] \in {"conftest", "test"} }
+        ix1 == AnalyzeDiskSeq(ix, D, SetToSeqI(p1))
+    IN  ScanImports(ix1, D, { f \in Files : ix1.cached[f] # NoMod /\ RoleOf[f] \in {"conftest", "test"} }, {})
+
 (* get_file_content: cache, else disk *)
 ContentOf(ix, f) == IF ix.cached[f] # NoMod THEN ix.cached[f] ELSE ix.disk[f]
 Known(ix, f) == f # NoFile /\ (ix.cached[f] # NoMod \/ ix.disk[f] # NoMod)
